@@ -82,9 +82,12 @@ def layout(g):
 def rot_tables(g, k, n=None):
     fast, wav, _, _ = layout(g)
     n = int(wav.max()) + 1 if n is None else n
-    d = 2 * np.pi * k / g.longitude_nodes
+    I = g.longitude_nodes
     j = np.arange(n)
-    return np.cos(j * d), np.sin(j * d)
+    ang = 2 * np.pi * ((j * int(k)) % I) / I          # argument reduced in integer arithmetic (accurate for large wavenumbers)
+    c, s = np.cos(ang), np.sin(ang)
+    s[(j * int(k)) % I == 0] = 0.0
+    return c, s
 
 
 def rot_np(g, x, k):
@@ -162,8 +165,14 @@ def _grid(a):
 
 def indep_sin_lat(spacing, J):
     """sin(latitude) of the nodes from the grid DEFINITION (not from the implementation's tables)"""
-    if spacing == 'gauss':
-        return np.polynomial.legendre.leggauss(J)[0]
+    if spacing == 'gauss':          # Newton iteration on the three-term recurrence of P_J (extended precision), Tricomi start
+        x = np.cos(np.pi * (np.arange(J, 0, -1) - 0.25) / (J + 0.5)).astype(np.longdouble)
+        for _ in range(6):
+            p0 = np.ones_like(x); p1 = x.copy()
+            for n in range(2, J + 1):
+                p0, p1 = p1, ((2 * n - 1) * x * p1 - (n - 1) * p0) / n
+            x = x - p1 * (x * x - 1) / (J * (x * p1 - p0)) if J > 1 else x * 0
+        return x.astype(np.float64)
     if spacing == 'equiangular':
         return np.sin(-np.pi / 2 + (np.arange(J) + 0.5) * np.pi / J)
     return np.sin(-np.pi / 2 + np.arange(J) * np.pi / (J - 1))
@@ -195,8 +204,17 @@ GRIDS_QUICK = [dict(M=4, L=5, I=13, J=7, spacing='gauss', impl='real', offset=0.
                # the stacked Fourier path (default only above 128 wavenumbers) must be exercised explicitly
                dict(M=4, L=5, I=13, J=7, spacing='gauss', impl='fast', offset=0.0, fast_kw=dict(stacked_fourier_transforms=True)),
                # longitude_nodes = 2 (wavenumbers - 1): the top wavenumber sits on the Nyquist frequency; radius != 1
-               dict(M=4, L=5, I=6, J=7, spacing='gauss', impl='real', offset=0.0, radius=2.5)]
+               dict(M=4, L=5, I=6, J=7, spacing='gauss', impl='real', offset=0.0, radius=2.5),
+               # size thresholds above the test-suite, skinny shapes: many latitudes; 128 < M <= 256 (stacked Fourier by DEFAULT)
+               dict(M=2, L=3, I=8, J=300, spacing='gauss', impl='real', offset=0.0, light=True),
+               dict(M=130, L=131, I=260, J=4, spacing='gauss', impl='fast', offset=0.0, light=True)]
 GRIDS_THOROUGH = GRIDS_QUICK + [
+    dict(M=2, L=3, I=6, J=520, spacing='equiangular', impl='fast', offset=0.0),
+    dict(M=3, L=4, I=8, J=1030, spacing='gauss', impl='real', offset=0.0, light=True),
+    dict(M=2, L=3, I=8, J=300, spacing='gauss', impl='fast', offset=0.0),
+    dict(M=130, L=131, I=260, J=4, spacing='gauss', impl='fast', offset=0.0),
+    dict(M=130, L=140, I=259, J=5, spacing='equiangular', impl='real', offset=0.0, light=True),
+    dict(M=260, L=261, I=520, J=3, spacing='gauss', impl='fast', offset=0.0, light=True),          # above the stacked range again
     dict(M=2, L=3, I=96, J=4, spacing='gauss', impl='real', offset=0.0),                 # wide
     dict(M=4, L=5, I=13, J=7, spacing='gauss', impl='fast', offset=0.0, mesh=[1, 2, 2]),
     dict(M=3, L=4, I=10, J=6, spacing='equiangular', impl='fast', offset=0.2, mesh=[2, 2, 2], radius=2.0),
@@ -224,7 +242,7 @@ def generate(ctx):
         yield 'tables', dict(g)
         yield 'actions', dict(g, seed=int(rng.integers(0, 2 ** 31)))
         yield 'sht', dict(g, seed=int(rng.integers(0, 2 ** 31)))
-        if not g.get('mesh'):             # (eager shard_map operators are slow; sharded = unsharded is property C12's business)
+        if not g.get('mesh') and not (g.get('light') and quick):   # (eager shard_map operators are slow: sharded = unsharded is C12's business)
             yield 'ops', dict(g, seed=int(rng.integers(0, 2 ** 31)))
     for g in (grids[:2] + grids[5:6]) if quick else [gg for gg in grids[:10] if not gg.get('mesh')]:
         yield 'radius', dict(g, seed=int(rng.integers(0, 2 ** 31)))
@@ -242,19 +260,19 @@ def generate(ctx):
         yield dyn_case('hs')
         yield dyn_case('dry', impl='fast', spacing='equiangular', integrator='backward_forward_euler', nsteps=1)
         # planets with 2*Omega != 1 in model units (twice / half the Earth's rotation rate)
-        yield dyn_case('dry', integrator='backward_forward_euler', nsteps=2, ks=2, omega_factor=2.0, reassign=True)
-        yield dyn_case('moist', ks=2, omega_factor=0.5)
+        yield dyn_case('dry', integrator='backward_forward_euler', nsteps=2, ks=2, omega_factor=2.0, reassign=True, levels='near_equi', vmap=True)
+        yield dyn_case('moist', ks=2, omega_factor=0.5, levels='jitter')
         yield dyn_case('sw', ks=2, omega_factor=2.0, reassign=True)
         yield dyn_case('dry', impl='fast', fast_kw=dict(stacked_fourier_transforms=True))
         # options, sizes, structured states (self-review checklist)
-        yield dyn_case('sw', ks=2, layers=3, radius=2.5, integrator='backward_forward_euler', nsteps=2, variants=['rest', 'single_top', 'zonal'])
+        yield dyn_case('sw', ks=2, layers=3, radius=2.5, integrator='backward_forward_euler', nsteps=2, variants=['rest', 'single_top', 'zonal'], vmap=True)
         yield dyn_case('sw', ks=2, layers=1)
-        yield dyn_case('moist', ks=2, amp='big', eq_kw=dict(vertical_advection='upwind'), eta=-0.03, reassign=True,
+        yield dyn_case('moist', ks=2, amp='big', eq_kw=dict(vertical_advection='upwind'), eta=-0.03, reassign=True, levels='thin', vmap=True,
                        variants=['zero_q', 'rest', 'single_top', 'sym'])
-        yield dyn_case('dry', ks=2, eq_kw=dict(include_vertical_advection=False, vertical_matmul_method='sparse'), K=2, radius=0.5)
+        yield dyn_case('dry', ks=2, eq_kw=dict(include_vertical_advection=False, vertical_matmul_method='sparse'), K=2, radius=0.5, levels='loose_ends')
         yield dyn_case('dry', ks=2, impl='fast', fast_kw=dict(base_shape_multiple=4), integrator='crank_nicolson_rk2',
                        filters=['exponential'], nsteps=2, scale='custom')
-        yield dyn_case('hs', ks=2, hs_params='alt', amp='big')
+        yield dyn_case('hs', ks=2, hs_params='alt', amp='big', levels='f32')
     else:
         for layers in (1, 2, 3, 4):
             yield dyn_case('sw', layers=layers, radius=[1.0, 2.5, 0.5, 1.0][layers - 1], integrator='imex_rk_sil3', filters=['exponential'],
@@ -270,6 +288,12 @@ def generate(ctx):
             yield dyn_case(kind, K=2, ks=3, integrator='backward_forward_euler', nsteps=2)
             yield dyn_case(kind, K=5, ks=3, M=3, L=7, I=10, J=9, integrator='backward_forward_euler', nsteps=1)
         yield dyn_case('hs', hs_params='alt', amp='big')
+        for lv in ('near_equi', 'jitter', 'f32', 'thin', 'loose_ends'):
+            yield dyn_case('dry', levels=lv, K=4, integrator='crank_nicolson_rk3', nsteps=2, vmap=True)
+            yield dyn_case('moist', levels=lv, K=3, integrator='imex_rk_sil3', filters=['exponential'], nsteps=2, eq_kw=dict(vertical_advection='upwind'))
+            yield dyn_case('hs', levels=lv, K=5, ks=3)
+        yield dyn_case('sw', layers=3, vmap=True, ks=3)
+        yield dyn_case('cloud', vmap=True, ks=3, amp='big')
         yield dyn_case('hs', hs_params='alt', impl='fast', fast_kw=dict(base_shape_multiple=4), K=5)
         for kind in ('dry', 'time', 'moist', 'cloud', 'sw'):
             for integ in dyn.INTEGRATORS:
@@ -313,10 +337,13 @@ def r_tables(ctx, a):
         c, s = rot_tables(g, k)
         res = np.roll(f, -k, axis=0) - (c[wav][None, :] * f - (sg * s[wav])[None, :] * f[:, partner])
         worst = max(worst, float(np.abs(res).max()))
-        if k in (1, I - 1):
+        if k in (1, I - 1) and f.size <= 4096:          # (exact-rational model only on small tables; large ones: numpy reference)
             ctx.corr(f'H_rot_table residual k={k}: model definition vs numpy', res,
                      ctx.model.call(6, [int(fast), I, f.shape[1], k], [c, s, f.ravel()]), scale=1.0)
-    ctx.table_obligation('H_rot_table ' + tag, worst <= 1e-13, {'max_residual_over_k': worst})
+    # basis entries are exp(2 pi i j k / I) with phase index up to M*I: for the size class M*I > 4096 (not visited before)
+    # the accuracy of the implementation's own table scales with that index; small grids keep 1e-13
+    tol_rot = 1e-13 * max(1.0, g.longitude_wavenumbers * I / 4096.0)
+    ctx.table_obligation('H_rot_table ' + tag, worst <= tol_rot, {'max_residual_over_k': worst, 'tol': tol_rot})
     c1, s1 = rot_tables(g, 1)
     ctx.table_obligation('H_rot_unit (c0=1, s0=0, c^2+s^2=1) ' + tag,
                          c1[0] == 1.0 and s1[0] == 0.0 and float(np.abs(c1 ** 2 + s1 ** 2 - 1).max()) <= 1e-14,
@@ -340,8 +367,9 @@ def r_tables(ctx, a):
     resp = p[:, ::-1, :] - sgn[:, None, :] * p
     pm = float(np.abs(p).max())
     ctx.table_obligation('H_parity ' + tag, float(np.abs(resp).max()) <= 1e-13 * pm, {'max_residual': float(np.abs(resp).max()), 'scale': pm})
-    ctx.corr('H_parity residual: model definition vs numpy', resp,
-             ctx.model.call(7, [int(fast), p.shape[0], J, p.shape[2]], [p.ravel()]), scale=pm)
+    if p.size <= 8192:                                  # (exact-rational model only on small tables; large ones: numpy reference)
+        ctx.corr('H_parity residual: model definition vs numpy', resp,
+                 ctx.model.call(7, [int(fast), p.shape[0], J, p.shape[2]], [p.ravel()]), scale=pm)
     ctx.table_obligation('H_p_pairs (cos and sin rows share the Legendre table) ' + tag,
                          bool(np.all(p == p[partner[: p.shape[0]]])), None)
     # derivative recurrence weights: same for the two rows of a pair (needed by the rotation lemmas of D1/D2)
@@ -388,16 +416,17 @@ def r_actions(ctx, a):
     fast, wav, iscos, partner = layout(g)
     R, C = g.modal_shape; In, Jn = g.nodal_shape; I = g.longitude_nodes
     x = util.small_rationals(rng, (R, C))
-    for k in sorted({1, int(rng.integers(0, I)), I - 1}):
+    for k in ([1] if a.get('light') else sorted({1, int(rng.integers(0, I)), I - 1})):
         c, s = rot_tables(g, k)
         ctx.corr(f'rot_modal k={k}', rot_np(g, x, k), ctx.model.call(0, [int(fast), R, C], [c, s, x.ravel()]), scale=4.0)
-    for ps in (0, 1):
+    for ps in ((1,) if a.get('light') else (0, 1)):
         ctx.corr(f'mir_modal pseudo={ps}', mir_np(g, x, bool(ps)), ctx.model.call(1, [int(fast), R, C, ps], [x.ravel()]), scale=2.0)
     if (In, Jn) == (I, g.latitude_nodes):
         z = util.small_rationals(rng, (In, Jn))
         for k in (1, I - 1, int(rng.integers(0, I))):
             ctx.exact(f'shift_lon k={k}', shift_np(g, z, k).ravel().tolist(), [float(v) for v in ctx.model.call(2, [In, Jn, k], [z.ravel()])])
         ctx.exact('flip_lat', flip_np(g, z).ravel().tolist(), [float(v) for v in ctx.model.call(3, [In, Jn], [z.ravel()])])
+    if a.get('light'): return          # (large arrays: one rotation, one mirror through the exact model; the rest on small grids)
     # stack action, composed
     xs = util.small_rationals(rng, (2, R, C))
     k = int(rng.integers(1, I)); c, s = rot_tables(g, k)
@@ -450,13 +479,23 @@ def r_sht(ctx, a):
         x = dyn.modal_field(rng, g, lead, degree=g.total_wavenumbers - 1)
         z = np.zeros(lead + tuple(g.nodal_shape)); z[..., :I, :J] = util.small_rationals(rng, lead + (I, J))
         zx = np.asarray(g.to_nodal(x)); az = np.asarray(g.to_modal(z))
-        for T in (_syms(g, rng) if lead == (2,) and not a.get('mesh') else _syms(g, rng, ks=1)):
+        for T in (_syms(g, rng) if lead == (2,) and not a.get('mesh') and not a.get('light') else _syms(g, rng, ks=1)):
             _close(ctx, 'to_nodal is equivariant: to_nodal(T x) = T to_nodal(x)', np.asarray(g.to_nodal(T.modal(x))), T.nodal(zx))
             _close(ctx, 'to_modal is equivariant: to_modal(T z) = T to_modal(z)', np.asarray(g.to_modal(T.nodal(z))), T.modal(az))
             _close(ctx, 'integrate is invariant: integrate(T z) = integrate(z)', np.asarray(g.integrate(T.nodal(z))), np.asarray(g.integrate(z)),
                    floor=float(np.abs(z).max()) * (g.radius ** 2))
             ctx.count('sym:' + ('mirror' if T.mirror else 'rot'))
         ctx.count('rank:%d' % (len(lead) + 2))
+        if lead == (2,):
+            # transformation contexts: the same relations under jax.jit and jax.vmap, shapes under jax.eval_shape
+            jax = dyn.mods()['jax']; jnp = dyn.mods()['jnp']
+            T = Sym(g, int(rng.integers(1, g.longitude_nodes)), True)
+            for nm, fn, arg, want in (('to_nodal', g.to_nodal, T.modal(x), T.nodal(zx)), ('to_modal', g.to_modal, T.nodal(z), T.modal(az))):
+                _close(ctx, f'{nm} is equivariant under jax.jit: jit({nm})(T x) = T {nm}(x)', np.asarray(jax.jit(fn)(jnp.asarray(arg))), want)
+                if not a.get('mesh'):
+                    _close(ctx, f'{nm} is equivariant under jax.vmap over the leading axis', np.asarray(jax.vmap(fn)(jnp.asarray(arg))), want)
+                ctx.oracle(f'jax.eval_shape({nm}) = shape of the result',
+                           tuple(jax.eval_shape(fn, jnp.asarray(arg)).shape) == tuple(np.shape(want)))
 
 
 def r_ops(ctx, a):
@@ -469,7 +508,8 @@ def r_ops(ctx, a):
             'exponential_filter': filtering.exponential_filter(g, 4, 2),
             'horizontal_diffusion_filter': filtering.horizontal_diffusion_filter(g, 0.01, 2)}
     N = lambda t: np.asarray(t, dtype=np.float64)
-    for T in _syms(g, rng, ks=3):
+    syms_ops = _syms(g, rng, ks=3)
+    for T in syms_ops:
         for nm, fn in scal.items():
             _close(ctx, f'{nm} commutes with T (scalar -> scalar)', N(fn(T.modal(x))), T.modal(N(fn(x))))
         # latitude derivatives: anti-commute with the mirror parity (map even <-> odd)
@@ -486,6 +526,28 @@ def r_ops(ctx, a):
                    N(g.div_cos_lat(T.vec(v), clip=clip)), T.modal(N(g.div_cos_lat(v, clip=clip))))
             _close(ctx, 'curl_cos_lat of a transformed vector is the transformed pseudo-scalar',
                    N(g.curl_cos_lat(T.vec(v), clip=clip)), T.modal(N(g.curl_cos_lat(v, clip=clip)), pseudo=True))
+        if T is syms_ops[-1]:
+            jax = m['jax']; jnp = m['jnp']
+            lin = dict(scal, cos_lat_d_dlat=g.cos_lat_d_dlat, sec_lat_d_dlat_cos2=g.sec_lat_d_dlat_cos2,
+                       div_cos_lat=lambda q: g.div_cos_lat((q, 0.5 * q)), curl_cos_lat=lambda q: g.curl_cos_lat((q, -q)))
+            wct = dyn.modal_field(rng, g, (2,), degree=g.total_wavenumbers - 1)
+            for nm, fn in lin.items():
+                base = N(fn(jnp.asarray(x)))
+                odd = nm in ('cos_lat_d_dlat', 'sec_lat_d_dlat_cos2')
+                # (div of (q, q/2) and curl of (q, -q) mix parities: rotation part of T only for those two)
+                Tc = Sym(g, T.k, False) if nm in ('div_cos_lat', 'curl_cos_lat') else T
+                wantT = Tc.modal(base, pseudo=odd)
+                _close(ctx, f'{nm} commutes with T under jax.jit', N(jax.jit(fn)(jnp.asarray(Tc.modal(x)))), wantT)
+                _close(ctx, f'{nm} commutes with T under jax.vmap over the leading axis', N(jax.vmap(fn)(jnp.asarray(Tc.modal(x)))), wantT)
+                pv, tv = jax.jvp(fn, (jnp.asarray(x),), (jnp.asarray(y),))
+                _close(ctx, f'{nm} is linear: jvp = the operator applied to the tangent', N(tv), N(fn(jnp.asarray(y))))
+                _, vjp = jax.vjp(fn, jnp.asarray(x)); (ct,) = vjp(jnp.asarray(wct))
+                ct = N(ct)
+                ctx.oracle(f'{nm}: reverse-mode derivative finite', bool(np.all(np.isfinite(ct))))
+                lhs = float(np.vdot(N(tv), wct)); rhs = float(np.vdot(y, ct))
+                sc = float(np.sum(np.abs(N(tv) * wct)) + np.sum(np.abs(y * ct))) + 1e-300
+                ctx.oracle(f'{nm}: vjp is the adjoint of jvp (<J v, w> = <v, J^T w>)', abs(lhs - rhs) <= TOL * sc, {'lhs': lhs, 'rhs': rhs})
+            ctx.count('context:jit/vmap/jvp/vjp')
         kv = g.k_cross((x, y))
         sgn = -1.0 if T.mirror else 1.0
         _close(ctx, 'k_cross commutes with rotations and flips sign under the mirror',
@@ -506,6 +568,24 @@ def r_ops(ctx, a):
 # ---------------------------------------------------------------------------
 # oracles: tendencies and trajectories
 # ---------------------------------------------------------------------------
+def _boundaries(rng, K, kind):
+    """sigma level sets: uneven random, or the near-coincidence / extreme-spacing classes"""
+    if not kind:
+        return util.uneven_boundaries(rng, K)
+    e = np.arange(K + 1) / K
+    if kind == 'near_equi':                      # equidistant to 1e-7 but not exactly
+        return np.round(e, 7)
+    if kind == 'jitter':                         # equidistant + 2^-22 on every other interface
+        b = e + 2.0 ** -22 * (np.arange(K + 1) % 2); b[0] = 0.0; b[-1] = 1.0; return b
+    if kind == 'f32':                            # float32-accumulated equidistant boundaries
+        b = np.concatenate([[0.0], np.cumsum(np.full(K, 1.0 / K, np.float32)).astype(np.float64)]); b[-1] = 1.0; return b
+    if kind == 'thin':                           # a 2^-30 thin layer between thick ones
+        b = util.uneven_boundaries(rng, K); b[2] = b[1] + 2.0 ** -30; return b
+    if kind == 'loose_ends':                     # first / last interface only isclose to 0 / 1 (accepted by the constructor)
+        b = util.uneven_boundaries(rng, K); b[0] = 8e-9; b[-1] = 0.999998; return b
+    raise ValueError(kind)
+
+
 AMP_BIG = dict(vort=0.3, div=0.1, T=10.0, lnps=0.3, tr=0.05)
 
 
@@ -560,7 +640,7 @@ def _dyn_setup(a, rng):
         mk_eq = lambda o: sw.ShallowWaterEquations(c, specs, o, refp)
         mk_state = lambda: dyn.sw_state(rng, c, deg)
     else:
-        c = dyn.coords(g, util.uneven_boundaries(rng, K))
+        c = dyn.coords(g, _boundaries(rng, K, a.get('levels')))
         u = scales.units
         scale = scales.Scale(2.0e6 * u.m, 3.0e4 * u.s, 2.0 * u.kg, 1.0 * u.degK) if a.get('scale') == 'custom' else scales.DEFAULT_SCALE
         specs = pe.PrimitiveEquationsSpecs.from_si(angular_velocity_si=of * scales.ANGULAR_VELOCITY, scale=scale)
@@ -673,6 +753,15 @@ def r_dynamics(ctx, a):
         ctx.oracle(f"{a['kind']}: evaluations are pure: an equation object whose orography attribute is re-assigned "
                    f"(x, T x, x) gives bit-identical results to fresh objects",
                    _bit_identical(r1, e1) and _bit_identical(r2, e2) and _bit_identical(r3, e1))
+    if a.get('vmap'):
+        # transformation contexts: the pair (x, T x) as a batch through jit(vmap(explicit_terms)) (orography batched too)
+        jax = dyn.mods()['jax']; jnp = dyn.mods()['jnp']
+        stack = lambda u, v: jax.tree_util.tree_map(lambda p_, q_: jnp.stack([jnp.asarray(p_, dtype=np.float64), jnp.asarray(q_, dtype=np.float64)]), u, v)
+        vb = dyn.tree_to_np(jax.jit(jax.vmap(ex))(stack(oro, T.modal(oro)), stack(st, T.state(st))))
+        first = jax.tree_util.tree_map(lambda t: t[0], vb); second = jax.tree_util.tree_map(lambda t: t[1], vb)
+        _close(ctx, f"{a['kind']}: {nm} under jit(vmap) over the batch (x, T x): slice 0 = un-batched evaluation", first, e1)
+        _close(ctx, f"{a['kind']}: {nm} under jit(vmap) over the batch (x, T x): slice 1 = T (slice 0)", second, T.state(first))
+        ctx.count('context:vmap')
     # structured states through the same compiled function
     for which in a.get('variants', []):
         if which == 'zero_q' and a['kind'] not in ('moist', 'cloud'): continue
